@@ -196,6 +196,16 @@ func dSize(curve elliptic.Curve) int {
 	return size
 }
 
+// validX25519PublicKey rejects a public key of more than 32 bytes: the derivations copy it into a [32]byte, which
+// would silently drop the bytes beyond 32 (a key followed by extra bytes was used as if it were the key itself).
+func validX25519PublicKey(pub []byte) error {
+	if len(pub) > cryptoutil.Curve25519KeySize {
+		return fmt.Errorf("invalid X25519 public key: %d bytes", len(pub))
+	}
+
+	return nil
+}
+
 type okpKWSupport struct{}
 
 func (o *okpKWSupport) getCurve(curve string) (elliptic.Curve, error) {
@@ -284,6 +294,10 @@ func (o *okpKWSupport) deriveSender1Pu(kwAlg string, apu, apv, tag []byte, ephem
 		return nil, errors.New("deriveSender1Pu: recipient key not OKP type")
 	}
 
+	if err := validX25519PublicKey(recPubKeyOKP); err != nil {
+		return nil, fmt.Errorf("deriveSender1Pu: recipient key: %w", err)
+	}
+
 	recPubKeyOKPChacha := new([chacha20poly1305.KeySize]byte)
 	copy(recPubKeyOKPChacha[:], recPubKeyOKP)
 
@@ -307,12 +321,20 @@ func (o *okpKWSupport) deriveRecipient1Pu(kwAlg string, apu, apv, tag []byte, ep
 		return nil, errors.New("deriveRecipient1Pu: ephemeral key not OKP type")
 	}
 
+	if err := validX25519PublicKey(ephemeralPubOKP); err != nil {
+		return nil, fmt.Errorf("deriveRecipient1Pu: ephemeral key: %w", err)
+	}
+
 	ephemeralPubOKPChacha := new([chacha20poly1305.KeySize]byte)
 	copy(ephemeralPubOKPChacha[:], ephemeralPubOKP)
 
 	senderPubKeyOKP, ok := senderPubKey.([]byte)
 	if !ok {
 		return nil, errors.New("deriveRecipient1Pu: sender key not OKP type")
+	}
+
+	if err := validX25519PublicKey(senderPubKeyOKP); err != nil {
+		return nil, fmt.Errorf("deriveRecipient1Pu: sender key: %w", err)
 	}
 
 	senderPubKeyOKPChacha := new([chacha20poly1305.KeySize]byte)
